@@ -3,12 +3,14 @@ import SaModel.Lemmas.C01CompSmall
 import SaModel.Lemmas.C04Scope
 /-
 C04, acceptance half ("the schema traced from the type accepts every value of that type"): the schema-level facts the
-completeness theorem of C01 (`Props/C01Complete.lean`) asks for, for traced schemas of the fragment.
+completeness theorems of C01 (`runRows_complete'` / `toMarrow_complete'`, `Props/C01CompleteObs.lean`) ask for, for traced
+schemas of the grammar `fragE` (enums included).
 
-  mapping_total : noEnum t → mappingDT o t = (dt, nb, md) → total dt n md ∧ defOK dt md      (C01's non-capacity exclusion
-                  never applies: a traced schema of an enum-free type has no UnknownVariant placeholder and no union)
-  newDT_traced    : frag t → mappingDT o t = (dt, nb, md) → newDT path dt nl md = ok b, and the fresh builder has the full
-                  head room `room b = 2^31 - 1` (no offsets yet, 2^32 free dictionary keys)
+  mapping_total : sized t → mappingDT o t = (dt, nb, md) → (∀ n, total dt n md) ∧ defOK dt md   (C01's non-capacity exclusion
+                  never applies: the traced schema of a type whose enums have 1 … 128 variants has no UnknownVariant
+                  placeholder, and the first variant of every union takes `serialize_default`)
+  newDT_traced  : fragE t → mappingDT o t = (dt, nb, md) → ∃ b, newDT path dt nl md = ok b ∧ FullRoom b (the fresh builder has
+                  the full head room: no offsets yet, 2^32 free dictionary keys);  newRoot_traced: `room root0 = 2^31 - 1`
 -/
 namespace SaModel.Roundtrip
 open SaModel SaModel.Spec SaModel.Build
@@ -21,7 +23,7 @@ theorem total_prim (o : TraceOpts) (p : Prim) (n : Bool) (md : Metadata) :
   | _ => simp [primDT, total, defOK]
 
 mutual
-/-- an enum-free type is `sized` (no enum to bound): the old hypothesis of `mapping_total` implies the new one -/
+/-- an enum-free type is `sized` (no enum to bound): `noEnum` implies the hypothesis of `mapping_total` -/
 theorem noEnum_sized : ∀ (t : Ty), noEnum t = true → sized t = true
   | .prim _, _ | .unit, _ | .unitStruct _, _ => by simp [sized]
   | .option t, h | .newtype _ t, h | .vec t, h => by
